@@ -41,6 +41,8 @@ EXHAUSTIVE_MEANS = "all (variant, catching, delay, outcome-sequence) configurati
 REQUIRED_CLASSES = ["retried-failure", "delay-function", "delay-int", "ends-with-exception-after-limit", "cancel-or-base"]
 
 OUTCOMES = ["ok", "caught", "sub", "uncaught", "cancel", "base"]
+# used by generated cases and a small extra enumeration only: an exception two inheritance levels below a caught class
+DEEP = "deep"
 DELAYS = [
     {"k": "none"},
     {"k": "int", "v": 0},
@@ -65,6 +67,14 @@ class SubA(CaughtA):
     pass
 
 
+class SubSubA(SubA):
+    pass
+
+
+class DeepUnicode(UnicodeError):  # ValueError <- UnicodeError <- DeepUnicode
+    pass
+
+
 class Uncaught(Exception):
     pass
 
@@ -84,6 +94,8 @@ def _make_exc(kind, i, ncatch, builtin=False):
         return (caught_b if (ncatch == 2 and i % 2 == 1) else caught_a)(i)
     if kind == "sub":
         return sub_a(i)
+    if kind == "deep":
+        return (DeepUnicode if builtin else SubSubA)(i)
     if kind == "uncaught":
         return uncaught(i)
     if kind == "cancel":
@@ -94,7 +106,7 @@ def _make_exc(kind, i, ncatch, builtin=False):
 
 
 def _retryable(kind, catching):
-    if kind in ("caught", "sub"):
+    if kind in ("caught", "sub", "deep"):
         return True
     if kind == "uncaught":
         return catching == "default"
@@ -396,6 +408,14 @@ def enumerate_cases(tier):
     for seq in itertools.product(OUTCOMES, repeat=3):
         for variant in ("sync", "async"):
             yield _case(variant, True, 1, "default", 1, {"k": "none"}, seq)
+    # an exception two inheritance levels below a caught class, for every caught-set form
+    for seq in itertools.product(["ok", "caught", DEEP, "uncaught"], repeat=3):
+        if DEEP not in seq:
+            continue
+        for catching, ncatch in CATCHINGS:
+            for variant in ("sync", "async"):
+                for builtin in (False, True):
+                    yield {**_case(variant, False, 1, catching, ncatch, {"k": "none"}, seq), "builtin": builtin}
     # built-in exception classes in every role (limit 1, every outcome script, every caught-set form and delay kind)
     for seq in itertools.product(OUTCOMES, repeat=3):
         for catching, ncatch in (("default", 1), ("class", 1), ("tuple", 2), ("set", 2)):
@@ -417,7 +437,7 @@ def strategy(tier):
     def cases(draw):
         limit = draw(st.integers(1, 4))
         # bias towards long runs of retryable failures so that the limit is actually reached
-        outcome = st.sampled_from(OUTCOMES + ["caught", "caught", "sub", "caught"])
+        outcome = st.sampled_from(OUTCOMES + ["caught", "caught", "sub", "caught", DEEP])
         seq = draw(st.lists(outcome, min_size=limit + 2, max_size=limit + 2))
         catching, ncatch = draw(st.sampled_from(CATCHINGS))
         args = draw(st.lists(st.one_of(st.integers(-2, 2), st.text(max_size=2), st.none()), max_size=3))
